@@ -244,6 +244,18 @@ CLAIMED["C15"] = dict(
     technique="clamp / mirror decision tables over MIR path tables",
 )
 
+CLAIMED["C16"] = dict(
+    category="other",
+    text=("Only the explicit structural clauses: R16.1 every Bearing::bearing returns through (x + 360) % 360; R16.2 LengthMeasurable of Line / "
+          "LineString / MultiLineString is distance(start,end) / the sum over all members for any metric space; R16.3 geographiclib is called "
+          "with (lat = y, lon = x); R16.4 HaversineMeasure's Distance / Destination / InterpolatePoint methods use self.radius and never the "
+          "crate constant; R16.5 the rhumb longitude difference is wrapped by exactly -2π when > π and +2π when < -π (polynomial identity per "
+          "path). Round trips, ratio division, symmetry up to rounding and all other numeric identities are NOT decided."),
+    design_ref="DESIGN.md §4 C16, §5",
+    note="Thin by nature: the property is numeric. Trusted: geographiclib-rs, libm.",
+    technique="term/constant provenance rules and polynomial identities on MIR path terms",
+)
+
 NOT_YET = "rule set not implemented in this revision of /verif (see DESIGN.md §7 build order); nothing is claimed"
 NA = {}
 
